@@ -17,7 +17,7 @@ def run(ctx):
     h = codec.H()
     rng = random.Random(ctx.seed + 1)
     thorough = ctx.tier == 'thorough' or ctx.escalate
-    n = 5000 if thorough else 600
+    n = 20000 if thorough else 600
     ctx.coverage['rule'] = ('generated grids (every kind in metadata, column metadata, cells, lists, dicts, nested grids; all code points; boundary and '
                             'non-finite floats; all mapped zones incl. transition instants; depth <= 3; versions 2.0/3.0) through dump+parse in ZINC mode, '
                             'singly and as multi-grid documents; distinct by dumped text')
@@ -77,7 +77,7 @@ def run(ctx):
     import datetime as _dt
     import pytz as _pytz
     sweep = []
-    for _ in range(5000 if thorough else 900):
+    for _ in range(30000 if thorough else 900):
         us = rng.choice([rng.randrange(1000000), rng.randrange(1000), rng.randrange(100000) * 10, 249, 251, 999999, 1])
         hh, mm, ss = rng.randint(0, 23), rng.randint(0, 59), rng.randint(0, 59)
         if rng.random() < 0.7:
